@@ -181,6 +181,9 @@ func (s *Scheduler) run(now time.Time) {
 	sort.SliceStable(entries, func(i, j int) bool {
 		return entries[i].Next.Before(entries[j].Next)
 	})
+	// Several schedules of one DAG can match the same minute; the DAG is
+	// started (stopped, restarted) once for that minute, not once per schedule.
+	invoked := map[string]bool{}
 	for _, e := range entries {
 		t := e.Next
 		if t.IsZero() {
@@ -190,6 +193,13 @@ func (s *Scheduler) run(now time.Time) {
 		}
 		if t.After(now) {
 			break
+		}
+		if e.Job != nil && e.Job.GetDAG() != nil {
+			key := fmt.Sprintf("%d %s %s", e.EntryType, e.Job.GetDAG().Location, e.Job.GetDAG().Name)
+			if invoked[key] {
+				continue
+			}
+			invoked[key] = true
 		}
 		go func(e *entry) {
 			if err := e.Invoke(); err != nil {
